@@ -18,6 +18,7 @@ type Scope struct {
 	locker         Locker
 	Block          bool
 	TagBody        bool
+	call           bool
 	Macro          bool
 	Keep           bool
 	InterruptCheck func()
@@ -61,7 +62,11 @@ func (s *Scope) InBlock(name Object) bool {
 	if s.Block && name == s.Name {
 		return true
 	}
-	for _, p := range s.parents {
+	parents := s.parents
+	if s.call { // the blocks of the caller are not visible in a function, those of the closure are
+		parents = parents[1:]
+	}
+	for _, p := range parents {
 		if p.InBlock(name) {
 			return true
 		}
